@@ -103,6 +103,22 @@ QXmppTask<void> QXmppAtmTrustMemoryStorage::removeKeysForPostponedTrustDecisions
     return makeReadyTask();
 }
 
+QXmppTask<void> QXmppAtmTrustMemoryStorage::removeKeysForPostponedTrustDecisions(const QString &encryption, const QMultiHash<QString, QByteArray> &keyIdsForAuthentication, const QMultiHash<QString, QByteArray> &keyIdsForDistrusting)
+{
+    for (auto itr = d->keys.find(encryption);
+         itr != d->keys.end() && itr.key() == encryption;) {
+        const auto &key = itr.value();
+        if ((key.trust && keyIdsForAuthentication.contains(key.ownerJid, key.id)) ||
+            (!key.trust && keyIdsForDistrusting.contains(key.ownerJid, key.id))) {
+            itr = d->keys.erase(itr);
+        } else {
+            ++itr;
+        }
+    }
+
+    return makeReadyTask();
+}
+
 QXmppTask<void> QXmppAtmTrustMemoryStorage::removeKeysForPostponedTrustDecisions(const QString &encryption, const QList<QByteArray> &senderKeyIds)
 {
     for (auto itr = d->keys.find(encryption);
